@@ -169,6 +169,11 @@ class WebSession(object):
 
                 request = self._original_request.copy()
                 request.url = url
+
+                # These fields belong to the URL of the copied request and
+                # are set again for the new URL before it is sent.
+                for name in ('Host', 'Authorization', 'Cookie'):
+                    request.fields.pop(name, None)
             else:
                 request = self._request_factory(url)
 
